@@ -335,6 +335,9 @@ class LockSkel:
             self.labels = saved
         if body and body[-1] == "KReturn":
             body = body[:-1]
+        # `return x;` out of a loop that is the helper's last statement before its final return leaves that loop: a `break`
+        if body and body[-1].startswith("(KLoop ") and body[-1].count("KLoop") == 1 and "KReturn" in body[-1] and "KReturn" not in " ".join(body[:-1]):
+            body = body[:-1] + [body[-1].replace("KReturn", "KBreak")]
         text = " ".join(body)
         if "KReturn" in text or "KParam" in text or "CParam" in text or "KGoto" in text or "KLabel" in text:
             return None
@@ -671,6 +674,7 @@ def tr_conc(run, objs=None):
     ctors = byrel[TSRM].get("ctors", []) if TSRM in byrel else []
     if TSRM in byrel and byrel[TSRM].get("inlined"):
         out.append("(* file-local static helpers spliced into their callers: %s *)" % ", ".join(byrel[TSRM]["inlined"]))
+    out.append("Definition inlined_helpers : list string := [%s]." % "; ".join(q(c) for c in (byrel[TSRM].get("inlined", []) if TSRM in byrel else [])))
     out.append("(* functions of src/tsrm.c that carry __attribute__((constructor)) *)")
     out.append("Definition constructors : list string := [%s]." % "; ".join(q(c) for c in ctors))
     run.write_gen("Gen_Conc.v", "\n".join(out) + "\n")
